@@ -711,6 +711,17 @@ def annotate_closures(body, overrides, rel, base_line, log, n0=0, counter=None):
                 raise ExtractError('closure %d contains annotated closures but has no annotation itself' % n_outer)
         if n_outer in overrides:
             ann = overrides[n_outer]
+            # `$1`, `$2`, .. in an annotation stand for the closure's own parameters (robust against a renamed parameter)
+            pnames = []
+            for part in params.split(','):
+                mm = re.match(r'^\s*(?:mut\s+)?([A-Za-z_][A-Za-z0-9_]*)\s*(?::.*)?$', part.strip(), re.S)
+                pnames.append(mm.group(1) if mm else None)
+            def _pn(m, pnames=pnames):
+                k = int(m.group(1)) - 1
+                if k >= len(pnames) or pnames[k] is None:
+                    raise ExtractError('closure %d: annotation refers to parameter $%d, which is not a plain variable' % (n_outer, k + 1))
+                return pnames[k]
+            ann = re.sub(r'\$(\d+)', _pn, ann)
         else:
             m = re.match(r'^((?:[A-Za-z_][A-Za-z0-9_]*::)+)([A-Za-z_][A-Za-z0-9_]*)\s*\((.*)\)$', inner, re.S)
             if m and pure_args(m.group(3)):
@@ -1021,6 +1032,10 @@ def regex_shape(rx):
                 pos[0] += 1
                 atom = ('lit', c)
             q = None
+            if pos[0] < len(rx) and rx[pos[0]] == '{':
+                raise ExtractError('regex_shape: counted repetition `{m,n}` in %r is outside the supported regex subset' % rx)
+            if atom[0] == 'lit' and atom[1] in '^$':
+                raise ExtractError('regex_shape: anchor in %r is outside the supported regex subset' % rx)
             if pos[0] < len(rx) and rx[pos[0]] in '?*+':
                 q = rx[pos[0]]
                 pos[0] += 1
